@@ -62,16 +62,21 @@ def gen_points(rng, cid):
     xk, yk = rng.choice(ENVS)
     days = rng.randint(1, 4)
     ntubes = rng.randint(1, 3)
-    level = rng.choice(["zero", "finite", "finite", "finite", "inf", "mixed", "triple", "triple"])
+    level = rng.choice(["zero", "finite", "finite", "finite", "inf", "mixed", "triple", "triple", "early", "early"])
+    if level == "early":
+        days = rng.randint(2, 4)        # loading so severe that the envelope is crossed within the represented days
     tubes = []
     for _ in range(ntubes):
         ne, nq = rng.randint(1, 4), rng.randint(1, 6)
         def dmg():
             base = {"zero": 0.7, "finite": 10 ** rng.uniform(-5.5, -1.5), "inf": 10 ** rng.uniform(-9, -7.5),
-                    "mixed": 10 ** rng.uniform(-9, -1), "triple": 1e-6}[level]
-            return float(np.float32(base * rng.uniform(0.2, 1.0)))
+                    "mixed": 10 ** rng.uniform(-9, -1), "triple": 1e-6, "early": rng.uniform(0.6, 0.95) / (days - 1 if days > 1 else 1)}[level]
+            return float(np.float32(base * (rng.uniform(0.2, 1.0) if level != "early" else rng.uniform(0.95, 1.0))))
         Dc = [[[dmg() for _ in range(nq)] for _ in range(ne)] for _ in range(days)]
         Df = [[[dmg() * rng.choice([0.0, 1.0, 1.0]) for _ in range(nq)] for _ in range(ne)] for _ in range(days)]
+        if level == "early":
+            # the sum of all but the last day is inside the envelope, one more application of the last day is not
+            Df = [[[0.0 for _ in range(nq)] for _ in range(ne)] for _ in range(days)]
         if level == "triple":
             # a creep-heavy, a fatigue-heavy and a mixed point that neither dominates in both damages but that the
             # interaction envelope makes the controlling one; in every order
@@ -82,7 +87,7 @@ def gen_points(rng, cid):
             Dc = [[[float(np.float32(p[0] * (1 + 0.01 * d))) for p in pts]] for d in range(days)]
             Df = [[[float(np.float32(p[1] * (1 + 0.01 * d))) for p in pts]] for d in range(days)]
         tubes.append({"Dc": Dc, "Df": Df})
-    mode = rng.choice(["lump", "lump", "last"])
+    mode = rng.choice(["lump", "lump", "last"]) if level != "early" else "last"
     return {"id": cid, "what": "points", "material": {"kind": "envelope", "xk": hx(xk), "yk": hx(yk)},
             "extrapolate": mode, "days": days,
             "tubes": [{"Dc": [[[hx(v) for v in r] for r in d] for d in t["Dc"]],
